@@ -60,7 +60,8 @@ class BufferWriter {
     const std::size_t length = end - begin;
     const std::size_t length_bytes = length * element_size;
 
-    std::memcpy(&buffer_[index_], begin, length_bytes);
+    if (length_bytes > 0)
+      std::memcpy(&buffer_[index_], begin, length_bytes);
     index_ += length_bytes;
     return {};
   }
